@@ -273,5 +273,26 @@ def wbRestores : Bool := false
 
 def wbFlush (F : Oracle) (w : World) (b : WB) : World × WB × Option Bool := wbFlushWith wbRestores F w b
 
+/-! ## LocalFsObjectStore::put at file level (object_store.rs)
+
+`put` = `ensure_parent` + `tokio::fs::write(path, data)`: the file is opened with create + truncate
+under its FINAL name and the bytes are written with `write_all` — no temporary file, no rename, no
+fsync.  File-level steps: (1) create-or-truncate: the file exists and is empty; (2..) `write`
+calls, each appending the next piece of `data` (`lens` = how many bytes each call took).  A crash
+(or an I/O error) after `k` steps leaves: -/
+
+/-- content of the file after `k` file-level steps; `none` = the file was not touched yet -/
+def fsAfter (data : List Nat) (lens : List Nat) (k : Nat) : Option (List Nat) :=
+  match k with
+  | 0 => none
+  | k + 1 => some (data.take ((lens.take k).foldl (· + ·) 0))
+
+/-- what a reader sees under the final name: the old content until the first step, then the file
+    being written -/
+def fsVisible (old : Option (List Nat)) (data lens : List Nat) (k : Nat) : Option (List Nat) :=
+  match fsAfter data lens k with
+  | none => old
+  | some c => some c
+
 end StreamActor
 end RedisVerif
